@@ -65,8 +65,8 @@ def render_file(lang: str, shapes: list[dict], salt: int):
                          + sum(inner[k] * inner["l" + k] for k in ("pub", "stat", "clsm", "priv", "dunder", "prop", "setter", "ctor")))
             outer = {k: 0 for k in ("pub", "stat", "clsm", "priv", "dunder", "prop", "setter", "ctor", "blank", "comment")}
             outer.update({"fill": 1 + loc_inner, "keyword": False})
-            classes.append(dict(outer, **dict(layout, headerLines=1, footerLines=0), line=len(lines) + 1, name=f"Shell{salt}x{i}"))
-            lines += [f"class Shell{salt}x{i}:", f'    label_{i} = "shell"']
+            classes.append(dict(outer, **dict(layout, headerLines=1, footerLines=0), line=len(lines) + 1, name=f"Shell{salt}x{i}Thing"))
+            lines += [f"class Shell{salt}x{i}Thing:", f'    label_{i} = "shell"']
             body = ["    " + l if l else l for l in body]
             classes.append(dict(s, **layout, line=len(lines) + hdr + 1, name=name))
             lines += body + ["", ""]
@@ -102,6 +102,15 @@ def parse_report(viols) -> list[dict]:
     return out
 
 
+# Srp.tla `keywords`: the built-in list, the user's list naming the other suffix of the generated names, one naming nothing, none
+KEYWORD_LISTS = {"default": None, "own": ["Thing"], "other": ["Zebra", "Quux"], "empty": []}
+
+
+def keyword_hit(c: dict, cfg: dict) -> bool:
+    k = cfg.get("keywords", "default")
+    return bool(cfg["checkKeywords"]) and (c["keyword"] if k == "default" else (not c["keyword"]) if k == "own" else False)
+
+
 def job(j: dict) -> dict:
     import yaml
     drive.preload()
@@ -114,6 +123,7 @@ def job(j: dict) -> dict:
     (root / fname).write_text(src)
     runs = []
     for ci, cfg in enumerate(j["cfgs"]):
+        kw = KEYWORD_LISTS[cfg["keywords"]]
         sec = {"max_methods": cfg["maxMethods"], "max_loc": cfg["maxLoc"], "check_keywords": cfg["checkKeywords"]}
         argv = ["srp"]
         mode = (0, 1, 2, 4, 5)[ci % 5]
@@ -131,6 +141,8 @@ def job(j: dict) -> dict:
         elif mode == 2:    # the values arrive on the command line
             sec = {"max_methods": 50, "max_loc": 5000, "check_keywords": cfg["checkKeywords"]}
             argv += ["--max-methods", str(cfg["maxMethods"]), "--max-loc", str(cfg["maxLoc"])]
+        if kw is not None:
+            sec["keywords"] = kw
         (root / ".thailint.yaml").write_text(yaml.safe_dump({"srp": sec}))
         r = drive.cli_json(argv + [fname], cwd=root)
         if r["violations"] is None:
@@ -163,7 +175,7 @@ def job_mixed(j: dict) -> dict:
     for fname, (lang, classes) in per.items():
         rep = parse_report([v for v in r["violations"] if os.path.basename(v["file_path"]) == fname])
         out.append({"lang": lang, "classes": classes, "reported": rep,
-                    "cfg": dict(j["limits"][lang], checkKeywords=j["checkKeywords"])})
+                    "cfg": dict(j["limits"][lang], checkKeywords=j["checkKeywords"], keywords="default")})
     return {"files": out}
 
 
@@ -188,8 +200,10 @@ def run(chk) -> None:
     chk.rng.shuffle(shapes)
     if quick:
         shapes = shapes[:1500]
-    cfgs = [{"maxMethods": m, "maxLoc": l, "checkKeywords": k} for m in (1, 2, 3, 4) for l in (4, 8, 12, 40)
+    cfgs = [{"maxMethods": m, "maxLoc": l, "checkKeywords": k, "keywords": "default"} for m in (1, 2, 3, 4) for l in (4, 8, 12, 40)
             for k in (True, False)]
+    for n, c in enumerate(cfgs):       # the keyword list is the user's for half of the configurations
+        c["keywords"] = ("default", "own", "default", "empty", "default", "other")[(n + n // 6) % 6]
     jobs = []
     for lang in ("python", "typescript", "rust"):
         for i in range(0, len(shapes), PER_FILE):
@@ -245,7 +259,7 @@ def run(chk) -> None:
                    + c["priv"] * c["lpriv"] + c["dunder"] * c["ldunder"] + c["prop"] * c["lprop"]
                    + c["setter"] * c["lsetter"] + c["ctor"] * c["lctor"] + c["fill"] + c["footerLines"])
             exp = (["methods"] if methods > cfg["maxMethods"] else []) + (["lines"] if loc > cfg["maxLoc"] else []) + \
-                  (["keyword"] if cfg["checkKeywords"] and c["keyword"] else [])
+                  (["keyword"] if keyword_hit(c, cfg) else [])
             got = rep_by_line.get(c["line"], [])
             clause = None
             detail = {}
